@@ -68,6 +68,100 @@ class ModelTree:
     def __iter__(self):
         return iter(list(self._ivs))
 
+    # -- the rest of the set-like / query API of intervaltree 3.x (same contract, linear scan) --
+    append = add
+
+    def addi(self, begin, end, data=None):
+        from intervaltree import Interval
+
+        self.add(Interval(begin, end, data))
+
+    appendi = addi
+
+    def update(self, intervals):
+        for iv in intervals:
+            self.add(iv)
+
+    def remove(self, iv):
+        i = self._find(iv)
+        if i < 0:
+            raise ValueError
+        del self._ivs[i]
+
+    def removei(self, begin, end, data=None):
+        from intervaltree import Interval
+
+        self.remove(Interval(begin, end, data))
+
+    def discardi(self, begin, end, data=None):
+        from intervaltree import Interval
+
+        self.discard(Interval(begin, end, data))
+
+    def difference_update(self, other):
+        for iv in list(other):
+            self.discard(iv)
+
+    def difference(self, other):
+        t = ModelTree(self._ivs)
+        t.difference_update(other)
+        return t
+
+    def union(self, other):
+        t = ModelTree(self._ivs)
+        t.update(other)
+        return t
+
+    def intersection_update(self, other):
+        keep = ModelTree(other)
+        self._ivs = [iv for iv in self._ivs if keep._find(iv) >= 0]
+
+    def __contains__(self, iv):
+        return self._find(iv) >= 0
+
+    def clear(self):
+        self._ivs = []
+
+    def copy(self):
+        return ModelTree(self._ivs)
+
+    def is_empty(self):
+        return len(self._ivs) == 0
+
+    def __bool__(self):
+        return len(self._ivs) != 0
+
+    def items(self):
+        return list(self._ivs)
+
+    def at(self, p):
+        return [iv for iv in self._ivs if iv.begin <= p < iv.end]
+
+    def envelop(self, begin, end=None):
+        if end is None:
+            begin, end = begin.begin, begin.end
+        if begin >= end:
+            return []
+        return [iv for iv in self._ivs if iv.begin >= begin and iv.end <= end]
+
+    def overlaps(self, begin, end=None):
+        if end is None:
+            return len(self.at(begin)) != 0
+        return len(self.overlap(begin, end)) != 0
+
+    def __getitem__(self, index):
+        if isinstance(index, slice):
+            return self.overlap(index.start, index.stop)
+        return self.at(index)
+
+    def remove_overlap(self, begin, end=None):
+        for iv in (self.at(begin) if end is None else self.overlap(begin, end)):
+            self.discard(iv)
+
+    def remove_envelop(self, begin, end):
+        for iv in self.envelop(begin, end):
+            self.discard(iv)
+
     def begin(self):
         if not self._ivs:
             return 0
